@@ -891,3 +891,133 @@ Proof.
     rewrite (H j k (or_introl eq_refl) Hk) in He. discriminate. }
   unfold job_invalidation. cbn [fst j_planned]. rewrite E. reflexivity.
 Qed.
+
+(* ====================================================================== *)
+(* 6. corollaries in the words of the property                              *)
+(* ====================================================================== *)
+(* CONTINUE starts and stops nothing *)
+Lemma continue_silent : forall c busy h p, Inv c h -> In p (h_cont h) ->
+  let '(_, _, rprocs, _) := snd (trigger c busy h) in ~ In p rprocs.
+Proof.
+  intros c busy h p HI Hp. unfold trigger. simpl. rewrite fh_zsort_In, filter_In. intros [Hr _].
+  exact (inv_rproc_cont _ _ HI p Hr Hp).
+Qed.
+
+Ltac frame_tac :=
+  repeat split; try tauto; intros;
+  rewrite ?fh_In_zadd, ?fh_In_zdiscard, ?filter_In, ?negb_true_iff, ?andb_false_iff, ?of_app_false in *;
+  intuition congruence.
+
+(* notifications for one application never touch the jobs of another one *)
+Lemma add_job_frame : forall c s p h h' b, add_job c s p h = Ok h' -> app_of c p <> b ->
+  (In b (h_stop h') <-> In b (h_stop h)) /\ (In b (h_rapp h') <-> In b (h_rapp h))
+  /\ (forall q, app_of c q = b -> (In q (h_rproc h') <-> In q (h_rproc h)) /\ (In q (h_cont h') <-> In q (h_cont h))).
+Proof.
+  intros c s p h h' b H Hb. unfold add_job in H. destruct (lookup c p) as [pi|k] eqn:El; [|discriminate].
+  simpl in H. inversion H; subst h'; clear H. destruct (lookup_ok c p pi El) as [Ha _]. rewrite <- Ha.
+  destruct s; simpl.
+  - unfold add_cont. repeat match goal with |- context [if ?b then _ else _] => destruct b end; simpl; frame_tac.
+  - unfold add_rproc. repeat match goal with |- context [if ?b then _ else _] => destruct b end; simpl; frame_tac.
+  - unfold add_stop. simpl. frame_tac.
+  - unfold add_rapp. destruct (zmem (app_of c p) (h_stop h)); simpl; frame_tac.
+  - frame_tac.
+  - frame_tac.
+Qed.
+
+(* the promotion of the property text, on the handler itself: a lost RESTART_PROCESS process of the start
+   sequence whose application is left stopped yields an application restart and no process restart *)
+Lemma promotion_effect : forall c p pi h h', Inv c h -> lookup c p = Ok pi ->
+  pi_strat pi = RfRestartProcess -> pi_seq pi = true -> ~ In (pi_app pi) (h_stop h) ->
+  add_default c p true h = Ok h' ->
+  In (pi_app pi) (h_rapp h') /\ ~ In p (h_rproc h') /\ ~ In p (h_cont h').
+Proof.
+  intros c p pi h h' HI El Hs Hq Hn H. destruct (lookup_ok c p pi El) as [Ha [Hse Hst]].
+  unfold add_default in H. rewrite Hst, Hs in H. unfold add_job in H. rewrite El in H. simpl in H.
+  rewrite Hse, Hq in H. simpl in H. inversion H; subst h'; clear H.
+  assert (E1 : zmem (pi_app pi) (h_stop h) = false) by (apply fh_zmem_false; exact Hn).
+  unfold add_rproc. rewrite E1.
+  assert (HI2 : Inv c (add_rapp c (pi_app pi)
+                 (if zmem (pi_app pi) (h_rapp h) && seq_of c p then h
+                  else mkH (h_stop h) (h_rapp h) (zadd p (h_rproc h)) (zdiscard p (h_cont h))))).
+  { apply Inv_add_rapp. pose proof (Inv_add_rproc c (pi_app pi) p h Ha HI) as X.
+    unfold add_rproc in X. rewrite E1 in X. exact X. }
+  assert (Hin : In (pi_app pi) (h_rapp (add_rapp c (pi_app pi)
+                 (if zmem (pi_app pi) (h_rapp h) && seq_of c p then h
+                  else mkH (h_stop h) (h_rapp h) (zadd p (h_rproc h)) (zdiscard p (h_cont h)))))).
+  { unfold add_rapp. destruct (zmem (pi_app pi) (h_rapp h) && seq_of c p); simpl; rewrite E1; simpl;
+      apply fh_In_zadd; auto. }
+  split; [exact Hin|]. rewrite Hq in Hse.
+  exact (inv_rapp_proc _ _ HI2 (pi_app pi) p Hin Ha Hse).
+Qed.
+
+(* F8 (DESIGN §6): the property demands loss_handled = master && lostp ; CONCILIATION refutes it *)
+Lemma loss_handled_spec : forall st master lostp, st <> WConciliation ->
+  loss_handled st master lostp = master && lostp.
+Proof. intros st m l H. destruct st; [| |contradiction]; unfold loss_handled; rewrite andb_true_r; reflexivity. Qed.
+
+Lemma loss_in_conciliation_refuted :
+  exists st master lostp, loss_handled st master lostp <> master && lostp.
+Proof. exists WConciliation, true, true. vm_compute. discriminate. Qed.
+
+(* Master only *)
+Lemma master_only : forall st s lostp crashed forced,
+  loss_handled st false lostp = false /\ crash_handled s false crashed forced = false
+  /\ crash_ending s false crashed = 0.
+Proof. intros. repeat split. Qed.
+
+Lemma crash_handled_spec : forall s master crashed forced,
+  crash_handled s master crashed forced = true <->
+  master = true /\ crashed = true /\ forced = false /\ (s = RfStopApplication \/ s = RfRestartApplication).
+Proof.
+  intros s m cr f. unfold crash_handled. destruct m, cr, f, s; simpl; split; intros H; try discriminate;
+    try (repeat split; auto; fail); try (destruct H as [? [? [? [?|?]]]]; discriminate);
+    try (destruct H as [? [? [? ?]]]; discriminate).
+Qed.
+
+(* ====================================================================== *)
+(* 7. the hypotheses are satisfiable: a concrete history                     *)
+(* ====================================================================== *)
+(* application 1 = processes 10 (seq, RESTART_PROCESS), 11 (not in the start sequence, RESTART_PROCESS),
+   12 (seq, STOP_APPLICATION), 13 (seq, CONTINUE); application 2 = process 20 (RESTART_APPLICATION) *)
+Definition demo_ctx : ctx :=
+  mkCtx [(10, mkPinfo 1 true RfRestartProcess); (11, mkPinfo 1 false RfRestartProcess);
+         (12, mkPinfo 1 true RfStopApplication); (13, mkPinfo 1 true RfContinue);
+         (20, mkPinfo 2 true RfRestartApplication)] [1; 2].
+
+Definition demo_ops : list op :=
+  [AddDefault 13 false; AddDefault 10 false; AddDefault 11 false; AddDefault 20 false;
+   Trigger [1];              (* application 1 busy: only application 2 is restarted *)
+   AddDefault 12 false;      (* STOP_APPLICATION supersedes the two pending process restarts *)
+   Trigger []].
+
+Example demo_run :
+  run demo_ctx h_empty demo_ops =
+  [OOk ([], [], [], [13], None); OOk ([], [], [10], [13], None); OOk ([], [], [10; 11], [13], None);
+   OOk ([], [2], [10; 11], [13], None);
+   OOk ([], [], [10; 11], [], Some ([], [2], [], true));
+   OOk ([1], [], [], [], None);
+   OOk ([], [], [], [], Some ([1], [], [], true))].
+Proof. vm_compute. reflexivity. Qed.
+
+Example demo_inv_nontrivial :
+  exists h, steps demo_ctx h_empty (firstn 4 demo_ops) = Ok h /\ h_rproc h = [10; 11] /\ h_rapp h = [2].
+Proof. eexists. split; [vm_compute; reflexivity|split; reflexivity]. Qed.
+
+(* promotion: process 10 lost while application 1 is left stopped; 11 is outside the start sequence *)
+Example demo_promotion :
+  run demo_ctx h_empty [AddDefault 11 true; AddDefault 10 true; Trigger []] =
+  [OOk ([], [], [11], [], None); OOk ([], [1], [11], [], None);
+   OOk ([], [], [], [], Some ([], [1], [11], true))].
+Proof. vm_compute. reflexivity. Qed.
+
+(* the invalidation filter: process 5 has a start command pending on lost instance 2, process 6 is planned,
+   process 7 has a command pending on a surviving instance, process 8 is in no pipe *)
+Example demo_filter :
+  lost_filter [2] [mkJob [mkCmd 5 2 false; mkCmd 7 3 false] [mkCmd 6 0 false]] [] [5; 6; 7; 8] = [7; 8].
+Proof. vm_compute. reflexivity. Qed.
+
+(* a required process with starting failure strategy ABORT pending on the lost instance erases the plan:
+   process 6 is then handed to the failure handler *)
+Example demo_filter_erase :
+  lost_filter [2] [mkJob [mkCmd 5 2 true] [mkCmd 6 0 false]] [] [5; 6] = [6].
+Proof. vm_compute. reflexivity. Qed.
